@@ -64,7 +64,7 @@ theorem numericOfInt_ext4_nat {z : Nat} (h : z ≤ 65535) :
   simp [this]
 
 theorem addrOther_reloc {D : Nat} {as as' : List Stmt} (h : PW (AddrShiftI D) as as') (v : Value) :
-    addrOther as' v = (addrOther as v).map (fun x => if v.isAddress then x + D else x) := by
+    addrOther as' v = (addrOther as v).map (fun x => if v.isAddress then x + (D : Int) else x) := by
   unfold addrOther
   by_cases hA : v.isAddress = true
   · simp only [hA, if_true]
@@ -73,36 +73,95 @@ theorem addrOther_reloc {D : Nat} {as as' : List Stmt} (h : PW (AddrShiftI D) as
     | some j =>
       dsimp only
       rw [addrIntOf_reloc h]
-      cases addrIntOf as j <;> rfl
+      cases addrIntOf as j with
+      | none => rfl
+      | some x => simp only [Option.map_some, Outcome.map_ok, Int.natCast_add]
   · simp only [hA, if_false, Bool.false_eq_true]
     split
     · cases v.int? <;> rfl
     · rfl
 
-theorem addrCombine_plus (a k : Nat) :
-    addrCombine '+' a k = if a + k ≤ 65535 then .ok (.numeric (a + k) (some 4) .extended false) else .diag := by
+
+theorem addrOther_numeric_signed (ss : List Stmt) (k : Nat) (h : Option Nat) (m : Mode) (n : Bool) :
+    addrOther ss (.numeric k h m n) = .ok (signedK k n) := rfl
+
+/-- `label + c` with a SIGNED constant: there is no reduction modulo `$10000`; above `$FFFF` the expression is
+rejected, below zero the result is a NEGATIVE number (`numericOfInt` has no lower bound) -/
+theorem addrCombine_plus_int (a : Nat) (c : Int) :
+    addrCombine '+' a c =
+      if (a : Int) + c ≤ 65535 then
+        .ok (.numeric ((a : Int) + c).natAbs (some 4) .extended (decide ((a : Int) + c < 0)))
+      else .diag := by
   unfold addrCombine
   simp only [beq_self_eq_true, if_true]
-  have e : ((a : Int) + k) = ((a + k : Nat) : Int) := by omega
-  rw [e]
-  by_cases hle : a + k ≤ 65535
-  · rw [if_pos hle, numericOfInt_ext4_nat hle]
+  by_cases hle : (a : Int) + c ≤ 65535
+  · rw [if_pos hle, numericOfInt_ext4 hle]
   · rw [if_neg hle, numericOfInt_big (by omega)]
+
+/-- `label + c` whose value lies in `0 .. $FFFF` -/
+theorem addrCombine_plus_int_nonneg {a : Nat} {c : Int} (h0 : 0 ≤ (a : Int) + c) (h1 : (a : Int) + c ≤ 65535) :
+    addrCombine '+' a c = .ok (.numeric ((a : Int) + c).toNat (some 4) .extended false) := by
+  rw [addrCombine_plus_int, if_pos h1]
+  have h2 : ¬ ((a : Int) + c < 0) := by omega
+  have h3 : ((a : Int) + c).natAbs = ((a : Int) + c).toNat := by omega
+  simp [h2, h3]
+
+theorem addrCombine_plus (a k : Nat) :
+    addrCombine '+' a k = if a + k ≤ 65535 then .ok (.numeric (a + k) (some 4) .extended false) else .diag := by
+  by_cases hle : a + k ≤ 65535
+  · rw [if_pos hle, addrCombine_plus_int_nonneg (by omega) (by omega)]
+    congr 2
+  · rw [if_neg hle, addrCombine_plus_int, if_neg (by omega)]
+
+/-- `label - c` with a SIGNED constant is computed modulo `$10000` (after the repair): the result is never
+negative -/
+theorem addrCombine_minus_int (a : Nat) (c : Int) :
+    addrCombine '-' a c = .ok (.numeric (((a : Int) - c) % 65536).toNat (some 4) .extended false) := by
+  unfold addrCombine
+  simp only [show ('-' == '+') = false from rfl, Bool.false_eq_true, if_false, beq_self_eq_true, if_true]
+  have h0 : 0 ≤ ((a : Int) - c) % 65536 := Int.emod_nonneg _ (by decide)
+  have h1 : ((a : Int) - c) % 65536 < 65536 := Int.emod_lt_of_pos _ (by decide)
+  rw [numericOfInt_ext4 (by omega)]
+  have h2 : ¬ (((a : Int) - c) % 65536 < 0) := by omega
+  have h3 : (((a : Int) - c) % 65536).natAbs = (((a : Int) - c) % 65536).toNat := by omega
+  simp [h2, h3]
 
 /-- `label - k` is computed modulo `$10000` (after the repair): the result is never negative -/
 theorem addrCombine_minus (a k : Nat) :
-    addrCombine '-' a k = .ok (.numeric (((a : Int) - k) % 65536).toNat (some 4) .extended false) := by
-  unfold addrCombine
-  simp only [show ('-' == '+') = false from rfl, Bool.false_eq_true, if_false, beq_self_eq_true, if_true]
-  have h0 : 0 ≤ ((a : Int) - k) % 65536 := Int.emod_nonneg _ (by decide)
-  have h1 : ((a : Int) - k) % 65536 < 65536 := Int.emod_lt_of_pos _ (by decide)
-  rw [numericOfInt_ext4 (by omega)]
-  have h2 : ¬ (((a : Int) - k) % 65536 < 0) := by omega
-  have h3 : (((a : Int) - k) % 65536).natAbs = (((a : Int) - k) % 65536).toNat := by omega
-  simp [h2, h3]
+    addrCombine '-' a k = .ok (.numeric (((a : Int) - k) % 65536).toNat (some 4) .extended false) :=
+  addrCombine_minus_int a k
 
-/-- `label + k`, `label - k` (the other operand is a number): the value moves by `D`, provided the moved
-result still fits 16 bits -/
+/-- the arithmetic core of the relocation of `label ± c` (SIGNED `c`): when the value in the original layout is
+a non-negative number `z` with `z + D ≤ $FFFF`, the value in the moved layout is `z + D` -/
+theorem addrCombine_reloc_num {D a : Nat} {c : Int} {op : Char} (hop : op = '+' ∨ op = '-')
+    (hb : ∀ v, addrCombine op a c = .ok v → ∃ z, v = .numeric z (some 4) .extended false ∧ z + D ≤ 65535) :
+    addrCombine op (a + D) c = (addrCombine op a c).map (shiftV D) := by
+  rcases hop with rfl | rfl
+  · rw [addrCombine_plus_int] at hb ⊢
+    rw [addrCombine_plus_int]
+    by_cases h1 : (a : Int) + c ≤ 65535
+    · rw [if_pos h1] at hb
+      obtain ⟨z, hz, hzD⟩ := hb _ rfl
+      simp only [Value.numeric.injEq, true_and, decide_eq_false_iff_not] at hz
+      obtain ⟨hz1, hz2⟩ := hz
+      rw [if_pos h1, if_pos (by omega)]
+      simp only [Outcome.map_ok, shiftV_numeric]
+      have e1 : (((a + D : Nat) : Int) + c).natAbs = ((a : Int) + c).natAbs + D := by omega
+      have e2 : decide (((a + D : Nat) : Int) + c < 0) = false := by simp; omega
+      have e3 : decide ((a : Int) + c < 0) = false := by simp; omega
+      rw [e1, e2, e3]
+    · rw [if_neg h1, if_neg (by omega)]; rfl
+  · rw [addrCombine_minus_int] at hb ⊢
+    rw [addrCombine_minus_int]
+    obtain ⟨z, hz, hzD⟩ := hb _ rfl
+    simp only [Value.numeric.injEq, and_true] at hz
+    simp only [Outcome.map_ok, shiftV_numeric]
+    congr 2
+    omega
+
+/-- `label + c`, `label - c` (the other operand is a number, SIGNED since repair batch B2: the constant is
+`signedK k nn`): the value moves by `D`, provided the original value is not negative and the moved result still
+fits 16 bits -/
 theorem addrOffset_reloc_num {D : Nat} {as as' : List Stmt} (h : PW (AddrShiftI D) as as')
     (l r : Value) (op : Char) (m : Mode) (ae : Bool) {k : Nat} {hh : Option Nat} {mm : Mode} {nn : Bool}
     (hother : (if l.isAddress then r else l) = .numeric k hh mm nn) (hop : op = '+' ∨ op = '-')
@@ -112,7 +171,7 @@ theorem addrOffset_reloc_num {D : Nat} {as as' : List Stmt} (h : PW (AddrShiftI 
   rw [addrOffset_expr] at hb
   rw [addrOffset_expr, addrOffset_expr]
   rw [hother] at hb ⊢
-  simp only [addrOther_numeric] at hb ⊢
+  simp only [addrOther_numeric_signed] at hb ⊢
   cases hi : (if l.isAddress = true then l.int? else r.int?) with
   | none => rfl
   | some ai =>
@@ -124,45 +183,32 @@ theorem addrOffset_reloc_num {D : Nat} {as as' : List Stmt} (h : PW (AddrShiftI 
     | some a =>
       rw [ha] at hb
       dsimp only [Option.map] at hb ⊢
-      rcases hop with rfl | rfl
-      · rw [addrCombine_plus] at hb ⊢
-        rw [addrCombine_plus]
-        by_cases h1 : a + k ≤ 65535
-        · rw [if_pos h1] at hb
-          obtain ⟨z, hz, hzD⟩ := hb _ rfl
-          cases hz
-          rw [if_pos h1, if_pos (by omega)]
-          simp only [Outcome.map_ok, shiftV_numeric]
-          congr 2; omega
-        · rw [if_neg h1, if_neg (by omega)]; rfl
-      · rw [addrCombine_minus] at hb ⊢
-        rw [addrCombine_minus]
-        obtain ⟨z, hz, hzD⟩ := hb _ rfl
-        simp only [Value.numeric.injEq, and_true] at hz
-        simp only [Outcome.map_ok, shiftV_numeric]
-        congr 2
-        omega
+      exact addrCombine_reloc_num hop hb
 
 /-- move a numeric value by `D` modulo `$10000` -/
 def shiftVmod (D : Nat) : Value → Value
   | .numeric a h m n => .numeric ((a + D) % 65536) h m n
   | v => v
 
-theorem addrCombine_minus_shift (a k D : Nat) :
-    addrCombine '-' (a + D) k = (addrCombine '-' a k).map (shiftVmod D) := by
-  rw [addrCombine_minus, addrCombine_minus]
+theorem addrCombine_minus_shift_int (a D : Nat) (c : Int) :
+    addrCombine '-' (a + D) c = (addrCombine '-' a c).map (shiftVmod D) := by
+  rw [addrCombine_minus_int, addrCombine_minus_int]
   simp only [Outcome.map_ok, shiftVmod]
   congr 2
   omega
 
-/-- `label - k`, unconditionally: the value moves by `D` modulo `$10000` (the subtraction is itself computed
-modulo `$10000`) -/
+theorem addrCombine_minus_shift (a k D : Nat) :
+    addrCombine '-' (a + D) k = (addrCombine '-' a k).map (shiftVmod D) :=
+  addrCombine_minus_shift_int a D k
+
+/-- `label - c` (SIGNED `c`), unconditionally: the value moves by `D` modulo `$10000` (the subtraction is itself
+computed modulo `$10000`) -/
 theorem addrOffset_reloc_minus_mod {D : Nat} {as as' : List Stmt} (h : PW (AddrShiftI D) as as')
     (l r : Value) (m : Mode) (ae : Bool) {k : Nat} {hh : Option Nat} {mm : Mode} {nn : Bool}
     (hother : (if l.isAddress then r else l) = .numeric k hh mm nn) :
     addrOffset as' (.expr l r '-' m ae) = (addrOffset as (.expr l r '-' m ae)).map (shiftVmod D) := by
   rw [addrOffset_expr, addrOffset_expr, hother]
-  simp only [addrOther_numeric]
+  simp only [addrOther_numeric_signed]
   cases (if l.isAddress = true then l.int? else r.int?) with
   | none => rfl
   | some ai =>
@@ -172,7 +218,7 @@ theorem addrOffset_reloc_minus_mod {D : Nat} {as as' : List Stmt} (h : PW (AddrS
     | none => rfl
     | some a =>
       dsimp only [Option.map]
-      exact addrCombine_minus_shift a k D
+      exact addrCombine_minus_shift_int a D _
 
 /-- `label - label`: the difference of two addresses does not move -/
 theorem addrOffset_reloc_diff {D : Nat} {as as' : List Stmt} (h : PW (AddrShiftI D) as as')
@@ -192,8 +238,8 @@ theorem addrOffset_reloc_diff {D : Nat} {as as' : List Stmt} (h : PW (AddrShiftI
       | none => rfl
       | some a =>
         dsimp only [Option.map]
-        rw [addrCombine_minus, addrCombine_minus]
-        have e1 : ((a + D : Nat) : Int) - ((b + D : Nat) : Int) = (a : Int) - (b : Int) := by omega
+        rw [addrCombine_minus_int, addrCombine_minus_int]
+        have e1 : ((a + D : Nat) : Int) - (b + (D : Int)) = (a : Int) - b := by omega
         rw [e1]
   | diag => rfl
   | internal => cases (if l.isAddress = true then l.int? else r.int?) <;> rfl
